@@ -646,8 +646,11 @@ impl EventGen for Tag {
             Tag::Compound(el, tail) => {
                 let (ev, bb) = el.generate_events(context)?;
                 (events, bbox) = (ev, bb);
-                if let (Some(tail), false) = (tail, events.is_empty()) {
-                    events.push(OutputEvent::Text(tail.to_owned()));
+                // (see `Tag::Leaf` below)
+                if let Some(tail) = tail {
+                    if !(events.is_empty() && tail.trim().is_empty()) {
+                        events.push(OutputEvent::Text(tail.to_owned()));
+                    }
                 }
                 // NOTE: el.content_bbox may be set (e.g. if symbol) while bb is None here.
             }
@@ -670,8 +673,12 @@ impl EventGen for Tag {
                     el.generate_events(context)?
                 };
                 (events, bbox) = (ev, bb);
-                if let (Some(tail), false) = (tail, events.is_empty()) {
-                    events.push(OutputEvent::Text(tail.to_owned()));
+                // The layout white space after an element which leaves nothing in the
+                // output goes with it; text which follows it does not.
+                if let Some(tail) = tail {
+                    if !(events.is_empty() && tail.trim().is_empty()) {
+                        events.push(OutputEvent::Text(tail.to_owned()));
+                    }
                 }
             }
             Tag::Comment(c, tail) => {
